@@ -108,6 +108,13 @@ class FD:
         self.split = split
         self.pure_calls = pure_calls or set()
         self.noreturn = noreturn or set()
+        # value of `c ? a : b` in the join block depends on the edge taken out of
+        # the block that tested c: one hidden key per such block
+        self.condkeys = {}
+        for b in fn.blocks.values():
+            if b.term and b.term.get("kind") == "ConditionalOperator" and len(b.succs) == 2:
+                self.condkeys[b.id] = len(self.keys)
+                self.keys.append(Key("branch", "$c%d" % b.id, domain=(0, 1), label="$c%d" % b.id))
         self.nodes = {}        # (bid, skey) -> state tuple (in-state)
         self.out = {}          # (bid, skey) -> out state
         self.edges = []        # (src node, dst node, label)
@@ -158,6 +165,16 @@ class FD:
         if i is not None:
             v = s[i]
             return v if v is not None else self.keys[i].domain
+        hook = getattr(self, "value_hook", None)
+        if hook is not None and k in ("mem", "var"):
+            hv = hook(n)
+            if hv is not None:
+                return hv
+        if k == "un" and n["op"] == "&":
+            t = ex.strip(n["e"])
+            if t is not None and t.get("k") == "var":
+                return frozenset([1000000000 + (t.get("id") or 0) * 7 + (hash(t["n"]) % 1000) * 1000])
+            return None
         if k == "un":
             a = self.aeval(n["e"], s)
             if a is None:
@@ -203,6 +220,11 @@ class FD:
                 return None
             return frozenset(out)
         if k == "cond":
+            cn = n["c"]
+            if isinstance(cn, dict) and cn.get("k") == "eref" and cn.get("b") in self.condkeys:
+                bv = s[self.condkeys[cn["b"]]]
+                if bv is not None and len(bv) == 1:
+                    return self.aeval(n["t"] if 1 in bv else n["f"], s)
             c = self.aeval(n["c"], s)
             t = self.aeval(n["t"], s)
             f = self.aeval(n["f"], s)
@@ -374,8 +396,13 @@ class FD:
         # evaluation order inside a full expression is approximated by
         # post-order (operands first)
         nodes = list(ex.walk(e, into_refs=False))
+        forget = []
         for x in reversed(nodes):
             k = x.get("k")
+            if k == "cond" and self.condkeys:
+                cn = x["c"]
+                if isinstance(cn, dict) and cn.get("k") == "eref" and cn.get("b") in self.condkeys:
+                    forget.append(self.condkeys[cn["b"]])
             if k == "asg":
                 i = self.key_index(x["l"])
                 if i is not None:
@@ -416,12 +443,26 @@ class FD:
                     states = new
             elif k == "call":
                 states = self._call(x, states)
+            elif k == "ret":
+                i = self._retkey()
+                if i is not None:
+                    new = []
+                    for s in states:
+                        v = self.aeval(x.get("e"), s) if x.get("e") is not None else None
+                        new.extend(self._assign([s], i, v))
+                    states = new
             elif k == "asm":
                 for o in x["outs"]:
                     i = self.key_index(o)
                     if i is not None:
                         states = self._assign(states, i, None)
         return _dedupe(states)
+
+    def _retkey(self):
+        for i, k in enumerate(self.keys):
+            if k.kind == "retval":
+                return i
+        return None
 
     def _havoc_aliases(self, lv, states):
         # a store through *p where p could alias a tracked deref key: ignored
@@ -439,17 +480,25 @@ class FD:
                     states = self._assign(states, i, r)
                     continue
             if key.kind == "field":
-                if self.cg is not None:
-                    targets = [fn] if fn else list(self._slot_targets(c))
-                    if not fn and not targets:
-                        assigned = True   # unknown indirect callee
-                    for t in targets:
-                        for (rec, f) in self.cg.may_write(t):
-                            if f == key.name and (key.rec is None or rec == key.rec):
-                                assigned = True
-                                break
-                        if assigned:
+                if self.cg is not None and fn:
+                    # slot calls operate on child coder objects (ownership tree)
+                    for (rec, f) in self.cg.may_write_direct(fn):
+                        if f == key.name and (key.rec is None or rec == key.rec):
+                            assigned = True
                             break
+                    if assigned:
+                        consts = self._callee_consts(fn, key)
+                        if consts is not None:
+                            new = []
+                            for s in states:
+                                old = s[i] if s[i] is not None else key.domain
+                                if old is None:
+                                    new.extend(self._assign([s], i, None))
+                                else:
+                                    for v in sorted(consts | old):
+                                        ns = list(s); ns[i] = frozenset([v]); new.append(tuple(ns))
+                            states = new
+                            continue
                 else:
                     assigned = False
             elif key.kind == "var":
@@ -468,6 +517,38 @@ class FD:
                 states = self._assign(states, i, None)
         return states
 
+    def _callee_consts(self, fname, key):
+        """Constants a direct callee (closure over direct calls) stores into the tracked
+        field, or None if some store is not a constant."""
+        cache = getattr(self, "_cc", None)
+        if cache is None:
+            cache = self._cc = {}
+        ck = (fname, key.label)
+        if ck in cache:
+            return cache[ck]
+        out = set()
+        seen = set()
+        st = [fname]
+        ok = True
+        while st and ok:
+            n = st.pop()
+            if n in seen:
+                continue
+            seen.add(n)
+            for f in self.cg.by_name.get(n, []):
+                for b, i, e in f.iter_elems():
+                    for (l, r, op, node) in ex.writes(e):
+                        if key.matches(l) if key.base is None else (
+                                ex.field_key(l) == (key.rec, key.name)):
+                            v = ex.const_val(r) if (r is not None and op == "=") else None
+                            if v is None:
+                                ok = False
+                            else:
+                                out.add(v)
+                st.extend(self.cg.direct.get(f.key, ()))
+        cache[ck] = frozenset(out) if ok else None
+        return cache[ck]
+
     def _slot_targets(self, c):
         cal = ex.strip(c.get("callee"))
         if cal is not None and cal.get("k") == "un" and cal["op"] == "*":
@@ -484,6 +565,25 @@ class FD:
             if upto is not None and i >= upto:
                 break
             states = self.transfer_elem(e, states)
+        if upto is None and self.condkeys:
+            # conditional values consumed in this block: forget their branch keys
+            forget = set()
+            for e in b.elems:
+                if e is None:
+                    continue
+                for x in ex.walk(e, into_refs=False):
+                    if x.get("k") == "cond":
+                        cn = x["c"]
+                        if isinstance(cn, dict) and cn.get("k") == "eref" and cn.get("b") in self.condkeys:
+                            forget.add(self.condkeys[cn["b"]])
+            if forget:
+                new = []
+                for st in states:
+                    st = list(st)
+                    for i in forget:
+                        st[i] = None
+                    new.append(tuple(st))
+                states = _dedupe(new)
         return states
 
     def branch(self, bid, s):
@@ -551,13 +651,18 @@ class FD:
             return
         # two-way branch: succs[0] = true, succs[1] = false
         if len(ss) == 2:
+            ck = self.condkeys.get(bid)
             if ss[0] is not None:
                 st = self.refine(cond, s, True)
                 if st is not None:
+                    if ck is not None:
+                        st = list(st); st[ck] = frozenset([1]); st = tuple(st)
                     yield (ss[0], "T", st)
             if ss[1] is not None:
                 sf = self.refine(cond, s, False)
                 if sf is not None:
+                    if ck is not None:
+                        sf = list(sf); sf[ck] = frozenset([0]); sf = tuple(sf)
                     yield (ss[1], "F", sf)
             return
         for x in ss:
